@@ -98,7 +98,8 @@ def signature(tr, mask):
 
 def describe(tr, mask):
     if tr["kind"] == "agg":
-        return "ErrorsSummary.aggregate over %s: %s is not the field-wise sum of %s" % (tr["pairs"], tr["agg"], tr["items"])
+        return "ErrorsSummary.aggregate over %s (handed over as a %s): %s is not the field-wise sum of %s" % (
+            tr["pairs"], tr.get("container", "list"), tr["agg"], tr["items"])
     bits = []
     if mask & 1:
         bits.append("levenshtein_distance=%s" % tr["dist"])
